@@ -224,7 +224,7 @@ def run_pattern(case):
         tol = 1e-9 * scale * max(len(shared), 1)
         got = [float(o) - float(offsets[-1]) for o in offsets]
         for i in range(n):
-            if abs(got[i] - float(want[i])) > tol:
+            if not abs(got[i] - float(want[i])) <= tol:
                 viol.append((
                     'offsets-not-least-squares',
                     'series %d: offset %r (relative to the last series), '
@@ -241,7 +241,7 @@ def run_pattern(case):
                     mean = sum(float(offsets[j]) + t[(h, j)] for j in s) \
                         / len(s)
                     total += float(offsets[i]) + t[(h, i)] - mean
-            if abs(total) > tol:
+            if not abs(total) <= tol:
                 viol.append(('residuals-do-not-sum-to-zero',
                              'series %d: sum of residuals %r' % (i, total)))
                 break
@@ -313,7 +313,7 @@ def residual_violations(t):
                         r = off[start] + v - curve[n]
                         total += r
                         nonzero = max(nonzero, abs(r))
-            if abs(total) > tol:
+            if not abs(total) <= tol:
                 viol.append((
                     'table-residuals-do-not-sum-to-zero:' + name,
                     '%s interval %d: residuals against the master curve sum '
